@@ -17,6 +17,48 @@ import (
 func init() {
 	suites["mux"] = suiteMux
 	replayers["mux"] = replayMux
+	replayers["mux-probe"] = func(in map[string]any) int {
+		rep := NewReport("mux", "replay", 0)
+		probeOversizeMetadata(rep)
+		for _, f := range rep.Findings {
+			fmt.Printf("%s %s %s: %s\n", f.Kind, f.Property, f.Signature, f.Detail)
+		}
+		if len(rep.Findings) > 0 {
+			return 1
+		}
+		return 0
+	}
+}
+
+// probeOversizeMetadata runs the one region of `Accepted` that is cheap to reach but too large for the line
+// protocol: a metadata blob one byte above the 100 MB cap that AddChunk enforces and SetICCProfile does not.
+// Go only (the model's answer is a theorem: both parser models reject payloads > maxMetadataSize).
+func probeOversizeMetadata(rep *Report) {
+	const cap = 100 * 1024 * 1024
+	for _, n := range []int{cap, cap + 1} {
+		m := mux.NewMuxer()
+		_ = m.AddFrame([]byte{0x2f, 0, 0, 0, 0}, nil)
+		blob := make([]byte, n)
+		m.SetICCProfile(blob)
+		var buf bytes.Buffer
+		err := m.Assemble(&buf)
+		rep.Count(fmt.Sprintf("probe:icc:%d:assemble-ok=%v", n, err == nil))
+		if err != nil {
+			if buf.Len() != 0 {
+				rep.Add(Finding{Kind: "property", Property: "C14", Signature: "mux.Assemble:error-after-write",
+					Detail: fmt.Sprintf("Assemble returned %v after writing %d bytes", err, buf.Len()),
+					Input:  map[string]any{"op": "mux-probe", "ops": fmt.Sprintf("SetICCProfile(%d zero bytes)", n)}})
+			}
+			continue
+		}
+		_, derr := mux.NewDemuxer(buf.Bytes())
+		_, perr := verifapi.NewContainerParser(buf.Bytes())
+		if derr != nil || perr != nil {
+			rep.Add(Finding{Kind: "property", Property: "C14", Signature: "mux-roundtrip:oversize-metadata-accepted",
+				Detail: fmt.Sprintf("SetICCProfile(%d bytes) + Assemble succeed (%d bytes), NewDemuxer: %v, container.NewParser: %v", n, buf.Len(), derr, perr),
+				Input:  map[string]any{"op": "mux-probe", "ops": fmt.Sprintf("AF0:2f00000000;IC:<%d zero bytes>", n)}})
+		}
+	}
 }
 
 // ---------------------------------------------------------------------------------------------
@@ -449,6 +491,9 @@ var oddInts = []int{0, 0, 0, 1, 2, 3, 10, 99, -1, -2, -1000, 0xFFFFFF, 0x1000000
 func genMuxOps(r *RNG, p *muxPool) []muxOp {
 	var ops []muxOp
 	nf := 1 + r.Intn(8)
+	if r.Chance(1, 5) {
+		nf = 1 // stills (simple and extended) get a fifth of the histories
+	}
 	if r.Chance(1, 40) {
 		nf = 0
 	}
@@ -971,6 +1016,9 @@ func suiteMux(rep *Report) error {
 			}
 			cases[k] = nil
 		}
+	}
+	if rich {
+		probeOversizeMetadata(rep)
 	}
 	// shortest inputs first per signature
 	sortFindingsBy(rep, "ops")
